@@ -29,12 +29,36 @@ var metrics = []string{models.DistanceEuclidean, models.DistanceCosine, models.D
 
 func pick[T any](r *rand.Rand, xs []T) T { return xs[r.IntN(len(xs))] }
 
-func genQuantizer(r *rand.Rand, allowLearned bool) *models.Quantizer {
-	switch r.IntN(3) {
+// productEligible: product.go supports euclidean / cosine / dot and needs a
+// vector length divisible by the number of sub-vectors (>= 2).
+func productEligible(metric string, dim int) bool {
+	return dim >= 2 && (metric == models.DistanceEuclidean || metric == models.DistanceCosine || metric == models.DistanceDot)
+}
+
+func genProductQuantizer(r *rand.Rand, dim int) *models.Quantizer {
+	var divs []int
+	for d := 2; d <= dim; d++ {
+		if dim%d == 0 {
+			divs = append(divs, d)
+		}
+	}
+	nc := 2 + r.IntN(5)
+	// small trigger so that training happens mid-history (the API demands >= 1000;
+	// the shard layer does not, and the trained path is the same)
+	return &models.Quantizer{Type: models.QuantizerProduct, Product: &models.ProductQuantizerParameters{
+		NumCentroids: nc, NumSubVectors: pick(r, divs), TriggerThreshold: nc + 1 + r.IntN(10)}}
+}
+
+func genQuantizer(r *rand.Rand, allowLearned bool, metric string, dim int) *models.Quantizer {
+	switch r.IntN(4) {
 	case 0:
 		return nil
 	case 1:
 		return &models.Quantizer{Type: models.QuantizerNone}
+	case 2:
+		if productEligible(metric, dim) {
+			return genProductQuantizer(r, dim)
+		}
 	}
 	b := &models.BinaryQuantizerParamaters{DistanceMetric: pick(r, []string{models.DistanceHamming, models.DistanceJaccard})}
 	if allowLearned && r.IntN(2) == 0 {
@@ -55,7 +79,7 @@ func genVamanaParams(r *rand.Rand, dim int, quant bool) *models.IndexVectorVaman
 		p.VectorSize = 2
 	}
 	if quant {
-		p.Quantizer = genQuantizer(r, true)
+		p.Quantizer = genQuantizer(r, true, p.DistanceMetric, int(p.VectorSize))
 	}
 	return p
 }
@@ -66,7 +90,7 @@ func genFlatParams(r *rand.Rand, dim int, quant bool) *models.IndexVectorFlatPar
 		p.VectorSize = 2
 	}
 	if quant {
-		p.Quantizer = genQuantizer(r, true)
+		p.Quantizer = genQuantizer(r, true, p.DistanceMetric, int(p.VectorSize))
 	}
 	return p
 }
